@@ -181,6 +181,41 @@ fn real() {
     }
 }
 
+/// impl -> spec: the Authorization header Metadata::authorization_header attaches, for every authentication scheme (synthetic
+/// metadata and the metadata of the real endpoints) x every SendAccessToken mode
+fn authtable() {
+    use ruma_common::api::SendAccessToken;
+    let scheme_name = |a: &AuthScheme| format!("{a:?}");
+    let mut metas: Vec<(String, Metadata)> = vec![];
+    for a in [AuthScheme::None, AuthScheme::AccessToken, AuthScheme::AccessTokenOptional, AuthScheme::AppserviceToken,
+              AuthScheme::AppserviceTokenOptional, AuthScheme::ServerSignatures] {
+        let h = VersionHistory::new(&[], &[(MatrixVersion::V1_1, "/x")], None, None);
+        metas.push((format!("synthetic {}", scheme_name(&a)), Metadata { method: Method::GET, rate_limited: false, authentication: a, history: h }));
+    }
+    for (name, m) in real_endpoints() {
+        metas.push((name.to_owned(), m));
+    }
+    let mut l = 0u64;
+    for (name, m) in metas {
+        for send in ["None", "IfRequired", "Always", "Appservice"] {
+            let tok = match send {
+                "IfRequired" => SendAccessToken::IfRequired("tok"),
+                "Always" => SendAccessToken::Always("tok"),
+                "Appservice" => SendAccessToken::Appservice("tok"),
+                _ => SendAccessToken::None,
+            };
+            let got = match guard(|| m.authorization_header(tok)) {
+                Err(_) => "panic".to_owned(),
+                Ok(Err(_)) => "error".to_owned(),
+                Ok(Ok(None)) => "none".to_owned(),
+                Ok(Ok(Some((n, v)))) => if n == http::header::AUTHORIZATION && v == "Bearer tok" { "header".to_owned() } else { format!("other {n:?} {v:?}") },
+            };
+            l += 1;
+            put(&json!({"kind0": "authtable", "l": l, "endpoint": name, "auth": scheme_name(&m.authentication), "send": send, "auth_header": got}));
+        }
+    }
+}
+
 fn main() {
     let args: Vec<String> = std::env::args().skip(1).collect();
     std::panic::set_hook(Box::new(|_| {}));
@@ -188,6 +223,7 @@ fn main() {
         Some("select") => select(),
         Some("subsets") => subsets(),
         Some("real") => real(),
+        Some("authtable") => authtable(),
         Some("wire") => synth::wire(&args[1..]),
         Some("xmatrix") => synth::xmatrix(),
         Some("c17") => c17::run(&args[1..]),
